@@ -143,9 +143,25 @@ def rule_limit(ctx, fx, config):
     # alias/anchor ratio heuristic in finalize
     fin = fx.fn("budget::BudgetEnforcer::finalize")
     ctx.saw(fin)
-    with fin.deep():
-        cs = {(c["op"], c["rl"], c["rr"]) for c in compares(fin)}
-        sw = {render(sym) for _b, sym, _t, _f in bool_switches(fin)}
+    # the predicate may live in a `&self` helper of the enforcer: collect the comparisons of finalize and of the enforcer's
+    # own methods it calls with `self`
+    pred_fns = [fin]
+    for cb, ct in fin.calls():
+        g = fx.local_callee(ct)
+        if g is not None and g.npath.startswith("budget::BudgetEnforcer::") and ct["args"] and render(fin.sym_operand(ct["args"][0])) in ("self", "&self", "ref(self)"):
+            pred_fns.append(g)
+            ctx.saw(g)
+    cs, sw = set(), set()
+    for g in pred_fns:
+        with g.deep():
+            cs |= {(c["op"], c["rl"], c["rr"]) for c in compares(g)}
+            sw |= {render(sym) for _b, sym, _t, _f in bool_switches(g)}
+            # a comparison that is the helper's returned value (last clause of an `&&` chain) feeds no switch
+            for _b, _i, s_ in g.stmts():
+                if s_["k"] == "assign":
+                    v = g.sym_rvalue(s_["rv"])
+                    if v[0] == "bin" and v[1] in ("Gt", "Ge", "Lt", "Le", "Eq", "Ne"):
+                        cs.add((v[1], render(v[2]), render(v[3])))
     import re as _re
     need = [("Ge", "self.report.aliases", "self.budget.alias_anchor_min_aliases"),
             ("Eq", "self.report.anchors", "0")]
@@ -163,6 +179,66 @@ def rule_limit(ctx, fx, config):
               "the ratio clause `aliases > multiplier x anchors` is missing or altered; found %s" % sorted(cs), config, ctx.where(fin))
     ctx.check("self.budget.enforce_alias_anchor_ratio" in sw, "LIMIT", "C07:LIMIT:finalize:ratio:switch",
               "heuristic is gated by enforce_alias_anchor_ratio", "the ratio heuristic is no longer gated by enforce_alias_anchor_ratio", config, ctx.where(fin))
+
+
+def rule_ratio_only_at_end(ctx, fx, config):
+    """The alias/anchor ratio is a statement about a whole counting unit (all anchors of the input — of the document under
+    per-document enforcement — wherever they are defined).  It is evaluated only (a) by `finalize`, or (b) by `observe` on the
+    DocumentEnd event under per-document enforcement, in both cases after `report.anchors` was brought up to date from the
+    defined-anchor set — never while nodes are still being observed, where a prefix with few anchors so far would be rejected
+    although the unit as a whole is within the ratio.  And under per-document enforcement (b) exists: finalize only ever sees the
+    counters of the last document."""
+    bud = [f for f in fx.fns.values() if f.npath.startswith("budget::")]
+    builders = {f.npath for f in bud for b, i, adt, var, fl, ops, s_ in aggregates(f) if adt == "budget::BudgetBreach" and var == "AliasAnchorRatio"}
+    called = {fx.callee(t) for f in bud for b, t in f.calls()}
+    helpers = builders & called
+    sites = []
+    for f in bud:
+        if f.npath in builders and f.npath not in helpers:
+            sites += [(f, b) for b, i, adt, var, fl, ops, s_ in aggregates(f) if adt == "budget::BudgetBreach" and var == "AliasAnchorRatio"]
+        sites += [(f, b) for b, t in f.calls() if fx.callee(t) in helpers]
+    ctx.floor("LIMIT.ratio-evaluation-sites", len(sites), 2, config)
+    obs = fx.fn("budget::BudgetEnforcer::observe")
+    evn = [v["name"] for v in fx.adt("saphyr_parser_bw::Event")["variants"]]
+    docend = set()
+    for b in sorted(obs.live_blocks):
+        t = obs.blocks[b]["term"]
+        if t["k"] == "switch":
+            sym = obs.sym_operand(t["o"])
+            if sym[0] == "discr" and render(sym[1]) in ("ev", "*ev", "deref(ev)"):
+                arms = dict(zip(t["vals"], t["tgts"]))
+                tgt = arms.get(evn.index("DocumentEnd"))
+                if tgt is not None and list(t["tgts"]).count(tgt) == 1:
+                    docend = {x for x in obs.live_blocks if obs.dominates(tgt, x)}
+    perdoc = per_document_blocks(obs)
+    have_b = False
+    for f, b in sites:
+        w = [wb for wb, i, s_ in f.stmts() if s_["k"] == "assign" and render(f.sym_place(s_["p"])) == "self.report.anchors"]
+        counted = bool(w) and any(f.dominates(wb, b) for wb in w)
+        if f.npath == "budget::BudgetEnforcer::finalize":
+            ok = counted
+        elif f.npath == obs.npath:
+            ok = counted and b in docend and b in perdoc
+            have_b = have_b or ok
+        else:
+            ok = False
+        ctx.check(ok, "LIMIT", "C07:LIMIT:ratio:only-at-end-of-unit:%s" % f.name, "the alias/anchor ratio is evaluated only at the end of the input (finalize) or of a document (DocumentEnd under per-document enforcement), after the anchors were counted",
+                  "%s evaluates the alias/anchor ratio while the unit is still being read (or before its anchors were counted): an input that defines its anchors after a run of aliases is rejected although every quantity is within its limit" % f.npath,
+                  config, ctx.where(f, b))
+    ctx.check(have_b, "LIMIT", "C07:LIMIT:ratio:per-document", "under per-document enforcement the ratio is evaluated at every document end",
+              "under per-document enforcement the alias/anchor ratio is not evaluated at the document end: finalize sees only the last document's counters, so an over-ratio document followed by another one is accepted", config, ctx.where(obs))
+
+
+def per_document_blocks(obs):
+    """blocks of `observe` that run only under EnforcingPolicy::PerDocument (any test of the policy)"""
+    out = set()
+    for b, sym, tt, ff in bool_switches(obs):
+        if sym[0] == "call" and "PartialEq" in sym[1] and "EnforcingPolicy" in sym[1] and tt != ff:
+            args = [render(a) for a in sym[2]]
+            if "self.policy" in args and any("PerDocument" in a for a in args):
+                edge = tt if last_seg(sym[1]) == "eq" else ff
+                out |= {x for x in obs.live_blocks if obs.edge_dominates(b, edge, x)}
+    return out
 
 
 def per_document_region(obs):
@@ -493,6 +569,7 @@ def run(ctx):
     for config in ctx.configs:
         fx = ctx.facts(config)
         rule_limit(ctx, fx, config)
+        rule_ratio_only_at_end(ctx, fx, config)
         rule_reset(ctx, fx, config)
         rule_observe(ctx, fx, config)
         rule_replay(ctx, fx, config)
